@@ -48,14 +48,42 @@ func registerCrypto(e *Engine) {
 		return tuple{zeroAddr, makeError(fr, "invalid transaction v, r, s values")}
 	}
 	e.Register(tx+".RecoverPlain", recover)
+	// crypto.Ecrecover(hash, sig) -> (pub, err): curve arithmetic is outside the
+	// encoding; the result is an arbitrary outcome (some fixed uncompressed
+	// public key, or an error).  Used by harnesses that run the real bodies of
+	// RecoverPlain / recoverPlain to check the gates in front of the recovery.
+	e.Register(e.ModulePath+"/crypto.Ecrecover", func(fr *frame, a []value) value {
+		ok := fr.i.ctx.NewVar("ecrecover.ok", BoolSort)
+		if fr.i.decide(ok) {
+			pub := make([]byte, 65)
+			pub[0] = 4
+			for k := 1; k < 65; k++ {
+				pub[k] = byte(k)
+			}
+			return tuple{concreteBytes(pub), iface{}}
+		}
+		return tuple{[]value(nil), makeError(fr, "recovery failed")}
+	})
 	// transaction hash: an opaque constant (nothing but signature recovery,
 	// which is abstracted, depends on it in the transaction harnesses)
 	e.Register(tx+".rlpHash", func(fr *frame, a []value) value {
-		h := make(array, 32)
-		for i := range h {
-			h[i] = uint8(0x11)
+		// an injective-by-construction stand-in: the digest of the canonical
+		// rendering of the RLP-visible content of the argument
+		it, _ := a[0].(iface)
+		if it.t == nil {
+			h := make(array, 32)
+			for i := range h {
+				h[i] = uint8(0x11)
+			}
+			return h
 		}
-		return h
+		d := sha256.Sum256([]byte(dumpValue(rlpSnapshot(it.t, it.v))))
+		return addrArray(d[:])
+	})
+	e.Register(e.ModulePath+"/coreV2/check.rlpHash", func(fr *frame, a []value) value {
+		it, _ := a[0].(iface)
+		d := sha256.Sum256([]byte("check:" + dumpValue(rlpSnapshot(it.t, it.v))))
+		return addrArray(d[:])
 	})
 	_ = fmt.Sprint
 	_ = types.Typ
